@@ -2530,8 +2530,8 @@ class Circuit(Unitary, StateVectorMap, Collection[Operation]):
 
     def get_slice(self, points: Sequence[CircuitPointLike]) -> Circuit:
         """Return a copy of a slice of this circuit."""
-        # Sort points
-        points = sorted(points)
+        # Normalize and sort points
+        points = sorted(self.normalize_point(point) for point in points)
 
         # Collect operations avoiding duplicates
         ops_and_cycles: list[tuple[Operation, int]] = list({
